@@ -62,3 +62,7 @@ pub(crate) mod c18bmp {
 pub(crate) mod c01s {
     include!(concat!(env!("OSRG_RUSTYBGP_VERIF_DIR"), "/hd/ev_c01s.rs"));
 }
+#[allow(dead_code, unused_imports, unused_variables, clippy::all)]
+pub(crate) mod c14api {
+    include!(concat!(env!("OSRG_RUSTYBGP_VERIF_DIR"), "/hd/ev_c14api.rs"));
+}
